@@ -28,3 +28,15 @@ Proof.
   - split; [exact Hw|]. change (2 ^ 62) with 4611686018427387904. change (2 ^ 26) with 67108864 in Hfit. lia.
   - unfold c11_decode_section. rewrite Hd. reflexivity.
 Qed.
+
+(* ---------- the default field-section limit (config.rs `impl Default for Settings`, read by translate/gen_msgpath.py)
+   is the largest varint: with nothing configured no field section the theorems speak about is refused, by the sender
+   (which assumes the default of a peer whose SETTINGS it has not seen yet) or by the receiver ---------- *)
+From H3V Require Import Gen.GenMsgPath.
+Lemma default_limit_unbounded : default_max_field_section_size = 2 ^ 62 - 1.
+Proof. reflexivity. Qed.
+Lemma default_limit_admits fs : section_fits fs -> section_size fs <= default_max_field_section_size.
+Proof.
+  unfold section_fits. rewrite default_limit_unbounded. change (2 ^ 62 - 1) with 4611686018427387903.
+  change (2 ^ 26) with 67108864. lia.
+Qed.
